@@ -3208,6 +3208,40 @@ def check_copy_isolation(key: str) -> list[tuple[str, str, str]]:
     return out
 
 
+def check_multi_isolation(sc: dict) -> list[tuple[str, str]]:
+    """Several databases (the merge loop of FGD.engine_dbase instead of its single-database shortcut): load the whole database,
+    change every definition of the answer in place, load it again and look every class up: nothing may have moved.
+    Returns [(change, what)]."""
+    from srctools.fgd import EntityDef, FGD
+    dbs = [build_engine_db(d['blocks'], d['bases'], d['marks']) for d in sc['dbs']]
+    out = []
+    with engine_db_list(dbs):
+        whole1 = FGD.engine_dbase()
+        canon1 = {k: deep_canon(e) for k, e in whole1.entities.items() if k != '_cbaseentity_'}
+        hows = {}
+        for i, (k, e) in enumerate(sorted(whole1.entities.items())):
+            if k == '_cbaseentity_':
+                continue
+            how = ['change-default', 'rename', 'add-keyvalue', 'drop-bases'][i % 4]
+            if mutate_answer(e, how):
+                hows[k] = how
+        whole2 = FGD.engine_dbase()
+        for k, how in hows.items():
+            c2 = deep_canon(whole2.entities[k]) if k in whole2.entities else None
+            if c2 != canon1[k]:
+                out.append((how, f'FGD.engine_dbase() over {len(dbs)} databases: after the caller changed ({how}) the definition of {k!r} in the first '
+                                 f'answer, the second answer differs in {diff_fields(canon1[k], c2) if c2 else "<missing>"}'))
+                continue
+            try:
+                c3 = deep_canon(EntityDef.engine_def(k))
+            except KeyError:
+                c3 = None
+            if c3 != canon1[k]:
+                out.append((how, f'EntityDef.engine_def({k!r}) over {len(dbs)} databases differs from the first FGD.engine_dbase() answer after the caller '
+                                 f'changed ({how}) that answer'))
+    return out
+
+
 def search_isolation(ck: Ck, names: list[str]) -> None:
     """State carried between calls: what engine_def() / engine_dbase() return belongs to the caller; changing it must not change what
     the next look-up or the whole database says (the lazily decoded definitions are cached inside the database objects)."""
@@ -3239,6 +3273,20 @@ def search_isolation(ck: Ck, names: list[str]) -> None:
                 alone = []
             ck.violation(f'lazy-answer-not-isolated:{via}:{how}', what,
                          {'kind': 'isolation', 'cases': [list(x) for x in (single if alone else cases)], 'via': via})
+    # several databases: FGD.engine_dbase() takes its merge loop, not the single-database shortcut
+    seen_multi: set[str] = set()
+    for i in range(ck.budget(8, 80)):
+        sc = gen_multi_scenario(rng)
+        try:
+            found3 = check_multi_isolation(sc)
+        except Exception as ex:   # noqa: BLE001
+            found3 = [('raises', f'engine_dbase over hand-built databases raises {type(ex).__name__}: {ex}')]
+        ck.count('search_multi_isolation')
+        ck.seen(('multiiso', repr(sc['dbs'])))
+        for how, what in found3:
+            if how not in seen_multi:
+                seen_multi.add(how)
+                ck.violation(f'lazy-answer-not-isolated:engine_dbase-merged:{how}', what, {'kind': 'multi_isolation', 'dbs': sc['dbs']})
     # the mechanism itself on generated definitions (value lists, tagged variants, helpers, resources: the bundled database has no
     # value list at all): deepcopy, change the copy in place, the original must not move
     reported: set[str] = set()
@@ -3973,7 +4021,7 @@ def run(ck: Ck) -> None:
         ck.explain('correspondence:lazy_db')
         ck.explain('instance:lazy_')
     if any(k.startswith('lazy-answer-not-isolated') for k in keys):
-        ck.explain('instance:state_copy_')
+        ck.explain('instance:state_')
     if any(k.startswith('lazy-multi-db') for k in keys):
         ck.explain('correspondence:multi_db')
         ck.explain('instance:multi_db_')
@@ -4050,6 +4098,13 @@ def replay(data: dict) -> int:
         if not w2:
             print('every later answer and the whole database equal the first answers')
         return 1 if w2 else 0
+    if kind == 'multi_isolation':
+        found_m = check_multi_isolation({'dbs': r['dbs'], 'ops': []})
+        for how, what in found_m:
+            print('VIOLATION', how, ':', what)
+        if not found_m:
+            print('changing the first FGD.engine_dbase() answer in place does not change the second')
+        return 1 if found_m else 0
     if kind == 'copy_isolation':
         found_c = check_copy_isolation(r['key'])
         for cn, how, what in found_c:
